@@ -45,7 +45,7 @@ def nontrivial(sim):
 
 
 def plan(tier, seed):
-    per, hist = (3, 70) if tier == 'quick' else (10, 220)
+    per, hist = (3, 70) if tier == 'quick' else (14, 450)
     specs = simcheck.sim_specs(['c01', 'c01', 'c04', 'c05', 'c09', 'c10'], seed, per, hist)
     specs += [{'lane': 'real', 'after_close': True, 'timeout': 120, 'params': {
         'nproc': n, 'how': how, 'T_job': T, 'T': 2.0, 'delay': 1.0, 'others': 0 if n == 1 else 2}}
